@@ -427,6 +427,35 @@ func (r *RowCache) IndexExists(row model.Model) error {
 	return nil
 }
 
+// DuplicateIndex returns an ErrIndexExists if two rows of the cache hold the
+// same value of a schema index. The index cannot tell: written without
+// checks it remembers only the last row that took a value.
+func (r *RowCache) DuplicateIndex() error {
+	r.mutex.RLock()
+	defer r.mutex.RUnlock()
+	for _, indexSpec := range r.indexSpecs {
+		if !indexSpec.isSchemaIndex() {
+			break
+		}
+		holder := make(map[interface{}]string, len(r.cache))
+		for uuid, row := range r.cache {
+			info, err := r.dbModel.NewModelInfo(row)
+			if err != nil {
+				return err
+			}
+			val, err := valueFromIndex(info, indexSpec.columns)
+			if err != nil {
+				continue
+			}
+			if other, ok := holder[val]; ok {
+				return NewIndexExistsError(r.name, val, string(indexSpec.index), uuid, []string{other})
+			}
+			holder[val] = uuid
+		}
+	}
+	return nil
+}
+
 // Delete deletes a row from the cache
 func (r *RowCache) Delete(uuid string) error {
 	r.mutex.Lock()
